@@ -55,6 +55,7 @@ def make_world(nfc, cfg):
             return 0
     sil = t4t.T4TSilicon(app, tech=cfg["tech"], uid=b"\x08\x11\x22\x33", fsci=cfg["fsci"], fwi=cfg["fwi"],
                          chunk=cfg["chunk"], wtx_plan=plan)
+    sil.wtx_repeat = cfg.get("wtx_repeat", 1)
     if cfg["tech"] == "A" and cfg.get("ats", "full") != "full":
         # standard-conformant ATS variants: absent interface bytes mean the defaults FSCI 2 (FSC 32) and FWI 4
         f = min(cfg["fsci"], 8)
@@ -127,6 +128,9 @@ def run_one(sim, params):
         "wtxm": sim.pick("wtxm", [1, 2, 59]),
         "wtx_kinds": sim.pick("wtx_kinds", [("answer",), ("answer", "chain"), ("ack", "answer", "chain"), ("chain",)]),
     }
+    cfg["wtx_repeat"] = sim.wpick("wtx_repeat", [(4, 1), (2, 2), (1, 3)])      # S(WTX) requests in a row
+    if cfg["wtx"] and cfg["wtx_repeat"] > 1:
+        sim.probe("wtx.several_in_a_row")
     cfg["ats"] = sim.wpick("ats", [(6, "full"), (1, "tl-only"), (1, "t0-only"), (1, "no-ta"), (1, "ta-only"), (1, "hist")])
     fsc = t4t.FSC_TABLE[eff_fsci(cfg)]
     miu = min(fsc, cfg["max_send"]) - 3
